@@ -16,6 +16,7 @@ def astVal (e : Ir.Expr) (v : Val) : Val :=
 structure Agree (cx : Ctx) (env : Ast.Env) : Prop where
   res : ∀ x, env.res (cx.name x) = some x
   vty : env.vty = cx.vty
+  fres : ∀ f, env.fres (cx.funcName f) = some f
 
 /-- emitted expression `a` simulates IR expression `e` of type `t` -/
 def Sim (W : World) (env : Ast.Env) (e : Ir.Expr) (a : HlslAst.Expr) (t : Ty) : Prop :=
